@@ -162,3 +162,6 @@ class Commands:
             return cmd_type.parse(buf, params)
         except NotParseable as exc:
             return InvalidCommand(params, exc, command, cmd_type), buf[0:0]
+        except RecursionError:
+            # nested deeper than the parser can follow
+            return InvalidCommand(params, None, command, cmd_type), buf[0:0]
